@@ -152,12 +152,11 @@ Definition line (k : string) (v : str) : str := s2l k ++ [61] ++ v ++ [10].
 Definition render_vals (sc : scenario) (w : world) : str :=
   join (flat_map (fun iv : nat * value =>
                     let fid := fst iv in
-                    match find (fun p : nat * nat => Nat.eqb (fst p) fid) (sc_under sc) with
-                    | Some (_, sid) =>
-                      if existsb (Nat.eqb sid) (w_attached w)
-                      then [dec_of_N (N.of_nat fid) ++ [58] ++ rv (rt_vals (w_rt w) fid)] else []
-                    | None => [dec_of_N (N.of_nat fid) ++ [58] ++ rv (rt_vals (w_rt w) fid)]
-                    end) (sc_init sc)) [59].
+                    (* a leaf below nil pointer structs is reachable only when all of them were attached *)
+                    if forallb (fun p : nat * nat => negb (Nat.eqb (fst p) fid) || existsb (Nat.eqb (snd p)) (w_attached w))
+                               (sc_under sc)
+                    then [dec_of_N (N.of_nat fid) ++ [58] ++ rv (rt_vals (w_rt w) fid)] else [])
+                 (sc_init sc)) [59].
 
 Definition render_active (w : world) : str :=
   let chain := active_chain (cmd_depth (w_tree w)) (rt_active (w_rt w)) (w_tree w) [] in
